@@ -925,11 +925,19 @@ M("C16-benign-library-key-emplace", "C16", "src/interrogate/interrogate_module.c
   benign=True)
 
 M("C10-override-flag-masked-one-side", "C10", "src/cppparser/cppFunctionType.cxx",
-  "  if (((_flags ^ other._flags) & ~(F_override | F_final)) != 0) {", "  if ((_flags & ~(F_override | F_final)) != other._flags) {",
+  "  if (((_flags ^ other._flags) & ~not_signature) != 0) {", "  if ((_flags & ~not_signature) != other._flags) {",
   expect="R10.4|match_virtual_override|flags-modulo-override-final")
 M("C10-benign-override-flag-or-form", "C10", "src/cppparser/cppFunctionType.cxx",
-  "  if (((_flags ^ other._flags) & ~(F_override | F_final)) != 0) {", "  if ((_flags | F_override | F_final) != (other._flags | F_override | F_final)) {",
+  "  if (((_flags ^ other._flags) & ~not_signature) != 0) {", "  if ((_flags | not_signature) != (other._flags | not_signature)) {",
   benign=True)
+M("C10-noexcept-overrider-not-matched", "C10", "src/cppparser/cppFunctionType.cxx",
+  "  const int not_signature = F_override | F_final | F_noexcept | F_trailing_return_type;",
+  "  const int not_signature = F_override | F_final;",
+  expect="R10.4|match_virtual_override|flags-modulo-override-final")
+M("C10-const-overrider-matched", "C10", "src/cppparser/cppFunctionType.cxx",
+  "  const int not_signature = F_override | F_final | F_noexcept | F_trailing_return_type;",
+  "  const int not_signature = F_override | F_final | F_noexcept | F_trailing_return_type | F_const_method;",
+  expect="R10.4|match_virtual_override|flags-modulo-override-final")
 
 M("C02-true-divide-mirror-fixed-kind", "C02", "src/interrogate/interfaceMakerPythonNative.cxx",
   "            def._wrapper_type = slotted_def._wrapper_type;", "            def._wrapper_type = WT_binary_operator;",
